@@ -3,7 +3,7 @@
    type, ConfigSchema/MapConfigSchema.serialize, config._format). *)
 From Coq Require Import ZArith List Bool.
 From Common Require Import Res Str.
-From Config Require Import Escape Proofs_Escape Types Schema Spec_C12 Serialize Proofs_Serialize Proofs_List Proofs_Pair Layers Ini Proofs_Ini.
+From Config Require Import Escape Proofs_Escape Types Schema Spec_C12 Serialize Proofs_Serialize Proofs_List Proofs_Pair Layers Ini Proofs_Ini Proofs_Host.
 Import ListNotations.
 Open Scope Z_scope.
 
@@ -30,8 +30,8 @@ Print Assumptions C13_strip_idempotent.
    to the same value -- for all raw texts, all oracle behaviours satisfying
    [str_oracles_ok] (int(str(z)) = z, float(repr(f)) = f, no backslash in either).
    Strings may contain backslashes, tabs and newlines.  Excluded: Boolean None (known
-   finding, refuted below).  Lists of scalars and Pairs: next theorems.  Hostname and deeper
-   compositions are covered by correspondence and the type_roundtrip monitor only. *)
+   finding, refuted below).  Hostname, lists and pairs: next theorems.  Deeper compositions
+   (pair of pairs, ...) are covered by correspondence and the type_roundtrip monitor only. *)
 Theorem C13_type_roundtrip_partial :
   forall so o, str_oracles_ok so o ->
   forall t raw v,
@@ -41,6 +41,24 @@ Theorem C13_type_roundtrip_partial :
     exists s, serialize so o false t v = SStr s /\ deserialize o t s = Ok v.
 Proof. exact scalar_roundtrip_lemma. Qed.
 Print Assumptions C13_type_roundtrip_partial.
+
+(* T2 for Hostname, BOTH branches (a name the resolver accepts; a "unix:" socket path, whose
+   value is "unix:" + the expanded path): every value in the range of deserialize round-trips,
+   under [host_oracles_ok]: an expanded path is a fixed point of expand_path and of pathlib's
+   normalisation, non-empty, single-line, without outer whitespace; pathlib gives no blank
+   string.  get_unix_socket_path must add nothing of its own to the pathlib oracle (a
+   percent-decoding variant is reported by corr:deserialize / corr:reparse and type_roundtrip). *)
+Theorem C13_hostname_roundtrip :
+  forall so o, host_oracles_ok o ->
+  forall opt raw v,
+    deserialize o (THostname opt) raw = Ok v ->
+    exists s, serialize so o false (THostname opt) v = SStr s /\ deserialize o (THostname opt) s = Ok v.
+Proof. exact hostname_roundtrip_lemma. Qed.
+Print Assumptions C13_hostname_roundtrip.
+
+Example C13_host_hypotheses_satisfiable : host_oracles_ok host_law_o.
+Proof. exact host_law_ok. Qed.
+Print Assumptions C13_host_hypotheses_satisfiable.
 
 (* T2 for List(subtype = scalar), tuple or frozenset (unique=True), optional or not: a list in
    the range of deserialize whose items are not None and serialize to single-line,
